@@ -118,6 +118,21 @@ var (
 	storRootRe = regexp.MustCompile(`"storage":\{[^{}]*"root":"/`)
 )
 
+// quietLogger: provisioning installs the validated config's default logger process-wide and
+// it stays installed afterwards; a later adaptation's warning would then be written through
+// it — e.g. into a log file that a lumberjack writer re-creates inside the working directory,
+// where the next `import *` finds it. Validating a config whose default log is discarded puts
+// a harmless logger back.
+var quietCfg = []byte(`{"admin":{"disabled":true,"config":{"persist":false}},"logging":{"logs":{"default":{"writer":{"output":"discard"}}}}}`)
+
+func quietLogger() {
+	defer func() { recover() }()
+	var cfg *caddy.Config
+	if err := caddy.StrictUnmarshalJSON(quietCfg, &cfg); err == nil {
+		caddy.Validate(cfg)
+	}
+}
+
 // validate runs what `caddy validate` runs on the adapter's output. It never starts
 // listeners or the admin endpoint (caddy.Validate provisions with start=false).
 func validate(js []byte) validRes {
@@ -158,6 +173,7 @@ func validate(js []byte) validRes {
 	}()
 	select {
 	case v := <-ch:
+		quietLogger()
 		cleanCwd()
 		return v
 	case <-time.After(60 * time.Second):
